@@ -528,6 +528,10 @@ func genCall(r *rng.R, host, urlS string) (string, []Arg) {
 
 var results = []string{"DIRECT", "PROXY p1.example.com:8080", "PROXY a:1; DIRECT", "SOCKS5 s:1080", "", "HTTPS secure:443", "PROXY [::1]:3128"}
 
+// results at the boundary of ASCII: U+007F is the last ASCII character, U+0080 the first that is not
+var oddResults = []string{"PROXY caf\u00e9:80", "PROXY p:80\u00a0", "DIRECT ", "\x7f", "PROXY \u20ac:1",
+	"PROXY p\u007f:1", "PROXY p\u0080:1", "\u0080", "PROXY p\u0081:1", "\u00ff", "PROXY \u0100:1", "DIRECT\u0080", "\u007f\u007f"}
+
 func genLeaf(r *rng.R) *Tree {
 	switch r.Intn(14) {
 	case 0:
@@ -539,7 +543,7 @@ func genLeaf(r *rng.R) *Tree {
 	case 3:
 		return &Tree{K: "leaf", V: &JS{T: "bool", B: r.Chance(1, 2)}}
 	case 4:
-		return &Tree{K: "leaf", V: Str(r.Pick([]string{"PROXY café:80", "PROXY p:80 ", "DIRECT ", "\x7f", "PROXY €:1"}))}
+		return &Tree{K: "leaf", V: Str(r.Pick(oddResults))}
 	}
 	return &Tree{K: "leaf", V: Str(r.Pick(results))}
 }
@@ -554,6 +558,36 @@ func genTree(r *rng.R, depth int, host, urlS string) *Tree {
 	}
 	h, a := genCall(r, host, urlS)
 	return &Tree{K: "node", H: h, Args: a, Yes: genTree(r, depth-1, host, urlS), No: genTree(r, depth-1, host, urlS)}
+}
+
+var dualStack = []string{"both.test", "localhost", "six.test", "good.test"}
+
+// genTwoFamilies: one evaluation that asks both helper families (ip4 lookups: dnsResolve, isResolvable, isInNet;
+// ip lookups: dnsResolveEx, isResolvableEx) about the same host, in either order
+func genTwoFamilies(r *rng.R) *Tree {
+	h := Lit(r.Pick(dualStack))
+	if r.Chance(1, 3) {
+		h = Arg{K: "host"}
+	}
+	v4 := func() *Tree {
+		switch r.Intn(3) {
+		case 0:
+			return &Tree{K: "show", H: "dnsResolve", Args: []Arg{h}}
+		case 1:
+			return &Tree{K: "show", H: "isInNet", Args: []Arg{h, Lit(r.Pick([]string{"192.168.0.0", "10.0.0.0", "127.0.0.0"})), Lit(r.Pick([]string{"255.255.0.0", "255.0.0.0"}))}}
+		}
+		return &Tree{K: "show", H: "isResolvable", Args: []Arg{h}}
+	}
+	v6 := func() *Tree {
+		return &Tree{K: "show", H: r.Pick([]string{"dnsResolveEx", "isResolvableEx"}), Args: []Arg{h}}
+	}
+	first, second := v4, v6
+	if r.Chance(1, 2) {
+		first, second = v6, v4
+	}
+	f := first()
+	// the first call is the condition (its value decides nothing: both branches ask the other family)
+	return &Tree{K: "node", H: f.H, Args: f.Args, Yes: second(), No: second()}
 }
 
 func genECase(r *rng.R) ECase {
@@ -572,7 +606,12 @@ func genECase(r *rng.R) ECase {
 	if host == "" {
 		host = u.Hostname()
 	}
-	if r.Chance(1, 2) {
+	if r.Chance(1, 10) {
+		c.Tree = *genTwoFamilies(r)
+		if r.Chance(1, 2) {
+			c.Hostname = r.Pick(dualStack)
+		}
+	} else if r.Chance(1, 2) {
 		h, a := genCall(r, host, u.String())
 		c.Tree = Tree{K: "show", H: h, Args: a}
 	} else {
@@ -603,6 +642,17 @@ func corpusE() []ECase {
 		show("sortIpAddressList", Lit("10.2.3.9;2001:4898:28:3:201:2ff:feea:fc14;::1;127.0.0.1;::9")),
 	} {
 		out = append(out, mk(t))
+	}
+	both := Lit("both.test")
+	for _, t := range []Tree{
+		{K: "node", H: "dnsResolveEx", Args: []Arg{both}, Yes: &Tree{K: "show", H: "dnsResolve", Args: []Arg{both}}, No: &Tree{K: "leaf", V: Str("DIRECT")}},
+		{K: "node", H: "dnsResolve", Args: []Arg{both}, Yes: &Tree{K: "show", H: "dnsResolveEx", Args: []Arg{both}}, No: &Tree{K: "leaf", V: Str("DIRECT")}},
+		{K: "node", H: "isResolvableEx", Args: []Arg{both}, Yes: &Tree{K: "show", H: "isInNet", Args: []Arg{both, Lit("192.168.0.0"), Lit("255.255.0.0")}}, No: &Tree{K: "leaf", V: Str("DIRECT")}},
+		{K: "leaf", V: Str("PROXY p\u0080:1")}, {K: "leaf", V: Str("\u0080")}, {K: "leaf", V: Str("PROXY p\u007f:1")},
+	} {
+		c := mk(t)
+		c.Env.DNS = map[string][]string{"both.test": {"2001:db8::7", "192.168.1.9", "10.9.9.9"}}
+		out = append(out, c)
 	}
 	for _, ent := range []string{"fnx", "both", "none", "notfn"} {
 		c := mk(Tree{K: "leaf", V: Str("DIRECT")})
